@@ -166,6 +166,14 @@ OctDonor(kind, le, p1, p2) ==
       EXCEPT !.ast = (1 :> D("Octahedral", <<1,2,3,4,5,6,7>>, p1)) @@ (2 :> D("Tetrahedral", <<2,1,8,9,NoAtom>>, p2))]
 FamOctDonor(kind) == { OctDonor(kind, le, p1, p2) : le \in { <<1,9,17,35,53>>, <<9,9,17,17,1>> }, p1 \in {1, -1}, p2 \in {1, -1} }
 
+(* Two octahedral centres bonded to each other (as in Mn2(CO)10): each centre is a ligand of the other. *)
+OctOct(kind, l1, l2, p1, p2) ==
+   [Mk(kind, (1 :> 25) @@ (2 :> 25) @@ [k \in 3..7 |-> l1[k - 2]] @@ [k \in 8..12 |-> l2[k - 7]],
+       [b \in { {1, k} : k \in 2..7 } \cup { {2, k} : k \in 8..12 } |-> Bd("none")])
+      EXCEPT !.ast = (1 :> D("Octahedral", <<1,2,3,4,5,6,7>>, p1)) @@ (2 :> D("Octahedral", <<2,1,8,9,10,11,12>>, p2))]
+FamOctOct(kind) == { OctOct(kind, l1, l2, p1, p2) : l1 \in { <<1,9,17,35,53>> }, l2 \in { <<1,9,17,35,53>>, <<9,9,17,17,1>> },
+                                                   p1 \in {1, -1}, p2 \in {1, -1} }
+
 (* Partner exchange among three diatomics: reactant bonds 1-2, 3-4, 5-6, product any perfect matching of the six
    atoms (identity, a four-ring exchange with a spectator, the six-ring exchange, ...).  Reactant and product look the
    same atom by atom; only the transition structure (the union of all bonds) tells the reactions apart. *)
@@ -190,6 +198,7 @@ Family == CASE Fam = "alltet" -> AllPlace("SMG", "Tetrahedral", 6, <<1, 9, 17, 3
             [] Fam = "crg3"  -> FamCRG(3, "CRG", {1, 6})
             [] Fam = "scrg2" -> FamCRG(2, "SCRG", {1, 6})
             [] Fam = "octdonor" -> FamOctDonor("SMG")
+            [] Fam = "octoct" -> FamOctOct("SMG")
             [] Fam = "exch" -> FamExch("CRG")
             [] Fam = "exchs" -> FamExch("SCRG")
             [] Fam = "prismr" -> FamPrism("CRG")
